@@ -32,6 +32,13 @@ str_t json_t__asString(json_t v) { __CPROVER_assert(JSCALAR(v), "asString() of a
 json_t g_jslot;
 /* operator[]: by member name in parsePlugin, by array index in parseDetectorGroup (one C name for both: the harness says which) */
 json_t *json_t__at_ref(json_t v, int k) { if (g_index_mode) { g_cur_elem = (uint32_t)k; g_jslot = JELEM(v, (uint32_t)k); } else g_jslot = JCHILD(v, (str_t)k); return &g_jslot; }
+/* iteration over an array value (not used at the pinned commit): position i denotes element i */
+jsonit_t json_t__begin(json_t v) { jsonit_t it; it.doc = v; it.i = 0; it.n = JSIZE(v); __CPROVER_assume(it.n <= VEC_MAX); return it; }
+jsonit_t json_t__end(json_t v) { jsonit_t it; it.doc = v; it.n = JSIZE(v); __CPROVER_assume(it.n <= VEC_MAX); it.i = it.n; return it; }
+_Bool jsonit_t__op_ne(jsonit_t a, jsonit_t b) { return a.i != b.i; }
+_Bool jsonit_t__op_eq(jsonit_t a, jsonit_t b) { return a.i == b.i; }
+jsonit_t jsonit_t__op_inc(jsonit_t *a) { __CPROVER_assert(a->i < a->n, "UB: increment of end()"); a->i = a->i + 1; return *a; }
+json_t jsonit_t__op_deref(jsonit_t a) { __CPROVER_assert(a.i < a.n, "UB: dereference of end()"); g_cur_elem = a.i; return JELEM(a.doc, (uint32_t)a.i); }
 uint32_t json_t__size(json_t v) { uint64_t n = JSIZE(v); __CPROVER_assume(n <= VEC_MAX); return (uint32_t)n; }
 #define KEYS_VID 77
 vec_str_t json_t__getMemberNames(json_t v) { vec_str_t r; r.vid = KEYS_VID; r.n = JSIZE(v); __CPROVER_assume(r.n <= VEC_MAX); g_keys_of = v; return r; }
